@@ -609,6 +609,12 @@ def parse_generate_hash_key(c_toks, pp_toks):
                     comps = [('KFiltered', d, arg[4]) if k == 'KList' else (k, d, pr) for k, d, pr in comps]
                 else:
                     raise Unrecognised('generate_hash_key: statement on %s: %s' % (name, t[:300]))
+        # the one recognised conditional statement: the working directory, when the configuration asks for it
+        cond = ('if storage . preprocessor_cache_mode_config ( ) . hash_working_directory { %s . push ( cwd . clone ( ) . '
+                'into_os_string ( ) ) ; }' % name)
+        if cond in text(body):
+            comps.append(('KCwd', None, None))
+            seen += 1
         uses = sum(1 for k in range(len(body) - 1) if body[k][1] == name and body[k + 1][1] == '.')
         lets = sum(1 for k in range(2, len(body)) if body[k][1] == name and body[k - 1][1] == 'mut')
         if uses + lets != seen:
